@@ -84,8 +84,9 @@ def r18_1(ctx):
             ok = any(any(v and "matches Element(_,_)" in g for g, v in pc["guards"].items()) and any(a2.endswith("trace_handle") and "item.0" in str(args) for a2, args in pc["actions"]) for pc in pcs)
             ctx.ob("R18.1", "format-entry-element-traced", ok, "FormatEntry::Element(handle, _) of every active-formatting entry is traced")
         # whole-stack coverage: the loop over open_elems traces the loop item, not a single element
-        ok = any(any(a2.startswith("loop-begin") and "self.open_elems" in a2 for a2, _ in pc["actions"]) for pc in pcs) and not any(
-            re.search(r"self\.open_elems\.(last|first)\(", " ".join(nfq.texts(pc))) for pc in pcs)
+        whole_loop = re.compile(r"loop-begin for _ in self\.open_elems(\.iter\(\))?(\.rev\(\)|\.chain\(.*\)|\.cloned\(\)|\.copied\(\))*$")
+        ok = all(any(whole_loop.match(a2) for a2, _ in pc["actions"]) for pc in pcs) and not any(
+            re.search(r"self\.open_elems\.(last|first|split_last|split_first|get|skip|take)\(", " ".join(nfq.texts(pc))) for pc in pcs)
         ctx.ob("R18.1", "whole-open-element-stack-traced/%s" % crate, ok, "every element of open_elems is traced (a loop over the whole stack)")
 
 
